@@ -64,10 +64,11 @@ impl fmt::Display for Token {
 pub enum TokenType {
     #[regex(r"\r\n")]
     #[regex(r"\n")]
-    #[regex(r"\f")]
     Newline,
 
-    #[regex(r"[ \t]+")]
+    // A form feed separates tokens but does not end a line: editors (and the
+    // language server protocol) only count CR LF, LF and CR as line ends.
+    #[regex(r"[ \t\f]+")]
     Whitespace,
 
     #[regex(r"\(\*(?:[^*]|\*[^\)])*\*\)", priority = 0)]
